@@ -3,6 +3,7 @@ C02 — property theorems: observable behaviour is independent of the JIT / opti
 for the configuration-dependent mechanisms modelled in `Model.lean` on the lowered core of C01.
 
 (a) `inline_preserves`, `inline_prog_preserves`, `inline_twice_preserves` — the inlining pass;
+    `fold_preserves`, `inline_then_fold_preserves` — constant folding / dead-branch elimination on its output;
 (b) `tier_transparent`, `tier_hypothesis_needed` — interpreter / native hand-over;
 (c) `inline_history_partial`, `inline_history_false` — pieces evaluated one after another over global cells;
 (d) `switches_covered`, `switch_tests_recognised`, `quick_pairwise`, `thorough_complete` — the configuration sets
@@ -10,6 +11,7 @@ for the configuration-dependent mechanisms modelled in `Model.lean` on the lower
 -/
 import SteelVerif.C02.LemmasHist
 import SteelVerif.C02.LemmasTier
+import SteelVerif.C02.LemmasFold
 namespace SteelVerif.C02
 open SteelVerif.C01
 
@@ -57,6 +59,21 @@ theorem inline_twice_preserves {T T1 T2 : List FnDef} (h1 : Rel 50 T T1) (h2 : R
     (∃ F, evalIR T F e s = some r) ↔
     (∃ F, evalIR T2 F (inline T1 pol2 75 s.length (inline T pol1 50 s.length e)) s = some r) :=
   (inline_preserves h1 pol1 e s r).trans (inline_preserves h2 pol2 _ s r)
+
+/-- **Constant folding and dead-branch elimination** (what the always-on const-evaluation does with the code the
+optional passes expose): with every procedure body and the expression folded, every evaluation gives exactly the
+same result with the same fuel — a value, or `none` (an error stays an error: a failing constant application is
+not folded, and a branch is removed only when the test is a constant that does not select it). -/
+theorem fold_preserves (T : List FnDef) (F : Nat) (e : IR) (s : List Val) :
+    evalIR (T.map foldFn) F (fold e) s = evalIR T F e s := fold_eval T F e s
+
+/-- Inlining followed by folding. -/
+theorem inline_then_fold_preserves {thr : Nat} {T T' : List FnDef} (hrel : Rel thr T T') (pol : Nat → Bool)
+    (e : IR) (s : List Val) (r : Val × List Val) :
+    (∃ F, evalIR T F e s = some r) ↔
+    (∃ F, evalIR (T'.map foldFn) F (fold (inline T pol thr s.length e)) s = some r) := by
+  simp only [fold_preserves]
+  exact inline_preserves hrel pol e s r
 
 /-! ## (b) Tiers -/
 
@@ -158,6 +175,11 @@ example : (evalIR (inlineProg [incFn, twiceFn] (unitPolicy []) 50) 1
     (inline [incFn, twiceFn] (fun _ => true) 50 0 (.call 1 [.const (.int 5)])) []).map (·.1) = some (.int 7) := by
   simp [evalIR, evalArgs, incFn, twiceFn, Op.apply, inlineProg, inlineFn, inline, inlineArgs, eligible, size, sizeArgs,
     unitPolicy, bindArgs, shift, shiftArgs, List.mapIdx, List.mapIdx.go]
+
+/-- Folding really removes code: the dead call of an undefined procedure disappears, a failing constant
+application stays. -/
+example : fold (.ite (.prim .lt (.const (.int 1)) (.const (.int 2))) (.const (.int 7)) (.call 9 [])) = .const (.int 7) := rfl
+example : fold (.prim .add (.const (.int 1)) (.const (.bool true))) = .prim .add (.const (.int 1)) (.const (.bool true)) := rfl
 
 /-- `tier_transparent` on a run that halts with a value while the schedule switches tiers three times. -/
 example : runTiered (mkImpl [sumFn] (stepVM [sumFn])) [.run 3, .enter, .run 20, .deopt, .run 2, .enter] 200
